@@ -1,2 +1,3 @@
+@classmethod
 def spec(cls, mean, variance, generator=None):
     return cls.sample(*cls.params_mv(mean, variance), generator=generator)
